@@ -60,6 +60,13 @@ def weaker_km_bound(F, e):
 
 LOGFNS = {'@syslog', '@printf', '@fprintf'}
 
+def must_pass_store(fn, stores, ret_blocks):
+    """every path from the entry to the end of one of ret_blocks executes one of `stores` (the compiler may have duplicated
+    the block that holds the store, so no single copy dominates)"""
+    from ..cfg import reaches_without
+    ends = {b.insts[-1] for b in ret_blocks}
+    return reaches_without(fn, fn.entry, lambda i_: i_ in ends, lambda i_: any(i_ is s_ for s_ in stores), 0) is None
+
 def nonnull_return_blocks(fn):
     """blocks from which a non-null pointer is returned (clang merges returns through a phi)"""
     out = []
@@ -455,7 +462,7 @@ def rule_divisors(ctx, P, r):
                 h, i = stores[0]
                 rets = nonnull_return_blocks(g) if h is g else [x.bb for x in h.insts() if x.op == 'ret']
                 idom = dominators(h)
-                if rets and all(dominates(idom, i.bb, x) for x in rets):
+                if rets and (all(dominates(idom, i.bb, x) for x in rets) or must_pass_store(h, [s_ for h_, s_ in stores if h_ is h], rets)):
                     r.ok(inst, func=init, loc=i.loc, facts={'stores': consts})
                 else:
                     r.fail(inst, func=init, sig='word size store is conditional', loc=i.loc,
